@@ -206,9 +206,27 @@ func cellFromCellBlock(b []byte) (*pb.Cell, uint32, error) {
 			"buffer is too small: expected %d, got %d", int(kvLen)+4, len(b))
 	}
 
+	if kvLen < 4 /*rowKeyLen*/ +4 /*valueLen*/ +2 /*keyLen*/ {
+		return nil, 0, fmt.Errorf(
+			"KeyValue is too small: expected at least %d, got %d", 4+4+2, kvLen)
+	}
+
 	rowKeyLen := binary.BigEndian.Uint32(b[4:8])
 	valueLen := binary.BigEndian.Uint32(b[8:12])
 	keyLen := binary.BigEndian.Uint16(b[12:14])
+
+	// All lengths come from the wire: validate them (without uint32 wrap-around)
+	// before slicing anything with them.
+	if total := 4 /*rowKeyLen*/ + 4 /*valueLen*/ + uint64(rowKeyLen) +
+		uint64(valueLen); total != uint64(kvLen) {
+		return nil, 0, fmt.Errorf("HBase has lied about KeyValue length: expected %d, got %d",
+			kvLen, total)
+	}
+	if 2 /*keyLen*/ +uint32(keyLen)+1 /*familyLen*/ +8 /*timestamp*/ +1 /*cellType*/ > rowKeyLen {
+		return nil, 0, fmt.Errorf(
+			"HBase has lied about row length: %d does not fit in key of %d",
+			keyLen, rowKeyLen)
+	}
 	b = b[14:]
 
 	key := b[:keyLen]
@@ -217,16 +235,15 @@ func cellFromCellBlock(b []byte) (*pb.Cell, uint32, error) {
 	familyLen := b[0]
 	b = b[1:]
 
+	if 2+uint32(keyLen)+1+uint32(familyLen)+8+1 > rowKeyLen {
+		return nil, 0, fmt.Errorf(
+			"HBase has lied about family length: %d does not fit in key of %d",
+			familyLen, rowKeyLen)
+	}
 	family := b[:familyLen]
 	b = b[familyLen:]
 
 	qualifierLen := rowKeyLen - uint32(keyLen) - uint32(familyLen) - 2 - 1 - 8 - 1
-	if 4 /*rowKeyLen*/ +4 /*valueLen*/ +2 /*keyLen*/ +
-		uint32(keyLen)+1 /*familyLen*/ +uint32(familyLen)+qualifierLen+
-		8 /*timestamp*/ +1 /*cellType*/ +valueLen != kvLen {
-		return nil, 0, fmt.Errorf("HBase has lied about KeyValue length: expected %d, got %d",
-			kvLen, 4+4+2+uint32(keyLen)+1+uint32(familyLen)+qualifierLen+8+1+valueLen)
-	}
 	qualifier := b[:qualifierLen]
 	b = b[qualifierLen:]
 
